@@ -524,17 +524,22 @@ open Life
     history (the caller creates, overwrites, destroys individuals at will – the original included;
     models are constructed, copy / move constructed, copy / move assigned – self-assignment
     included –, destroyed, in any order) every live storing model's interpreter points at that
-    object's own stored individual, which is alive and IS the individual the object stands for:
-    never dangling, never another object's. -/
-theorem stored_model_owns_its_individual {P : Type} (tbl : Bool → Smf) (hw : WellSeated (tbl true) = true)
-    (junk : P → P) (h : List (Op P)) (i : Nat) (o : Obj P)
+    object's own stored individual, which is alive, is not one of the caller's, and – unless the
+    object has just been moved from – IS the individual the object stands for and the one the
+    interpreter was built for: the model reads it (never dangling, never another object's, never
+    through an interpreter dimensioned for another program). -/
+theorem stored_model_owns_its_individual {P : Type} [DecidableEq P] (tbl : Bool → Smf)
+    (hw : WellSeated (tbl true) = true) (junk : P → P) (h : List (Op P)) (i : Nat) (o : Obj P)
     (ho : (run tbl junk h).objs i = some o) (hs : o.stored = true) :
-    o.ptr = o.cell ∧ (run tbl junk h).read i = some o.prog ∧ (run tbl junk h).ext o.ptr = false := by
+    o.ptr = o.cell ∧ (run tbl junk h).ext o.ptr = false ∧
+    (o.valid = true → (run tbl junk h).read i = some o.prog) := by
   have inv := run_inv tbl hw junk h St.init inv_init
-  obtain ⟨h1, h2, _, h4⟩ := inv.own i o (by simp) ho hs
-  refine ⟨h1, ?_, by rw [h1]; exact h4⟩
+  obtain ⟨h1, h2, _, h4, h5⟩ := inv.own i o (by simp) ho hs
+  refine ⟨h1, by rw [h1]; exact h4, ?_⟩
+  intro hv
   show ((run tbl junk h).objs i).bind _ = _
-  rw [ho]; simp only [Option.bind]; rw [h1]; exact h2
+  have h2' : (run tbl junk h).heap o.cell = some o.prog := h2
+  rw [ho]; simp only [Option.bind]; rw [h1, h2', h5 hv]; simp
 
 /-- … and two live storing models never share the individual they read -/
 theorem stored_models_do_not_share {P : Type} (tbl : Bool → Smf) (hw : WellSeated (tbl true) = true)
@@ -550,20 +555,23 @@ theorem stored_models_do_not_share {P : Type} (tbl : Bool → Smf) (hw : WellSea
 /-- `S = false` (what the evaluators use internally): under the DOCUMENTED precondition – the caller
     neither overwrites nor destroys an individual a live reference-only model points at – the model
     reads the individual it stands for; copies / assignments carry the pointer along. -/
-theorem ref_model_under_precondition {P : Type} (tbl : Bool → Smf) (hw : WellSeated (tbl true) = true)
+theorem ref_model_under_precondition {P : Type} [DecidableEq P] (tbl : Bool → Smf) (hw : WellSeated (tbl true) = true)
     (hr : WellRef (tbl false) = true) (junk : P → P) (h : List (Op P))
     (hsafe : RefSafe tbl junk St.init h) (i : Nat) (o : Obj P)
     (ho : (run tbl junk h).objs i = some o) (hs : o.stored = false) :
     (run tbl junk h).read i = some o.prog := by
   have inv := run_invR tbl hw hr junk h St.init inv_init (by intro i o _ h; simp [St.init] at h) hsafe
+  obtain ⟨h1, _, h3⟩ := inv i o (by simp) ho hs
   show ((run tbl junk h).objs i).bind _ = _
-  rw [ho]; exact (inv i o (by simp) ho hs).1
+  have h1' : (run tbl junk h).heap o.ptr = some o.prog := h1
+  rw [ho]; simp only [Option.bind]; rw [h1', h3]; simp
 
 /-- the special member functions of the CURRENT source (generated table) -/
 def shippedTbl : Bool → Smf := fun stored => if stored then Gen.storedSmf else Gen.refSmf
 
 /-- the obligation on the current source: the storing flavour re-seats everywhere (a defaulted copy
-    assignment, a swapped interpreter, a forgotten `int_` … change the table and break this) -/
+    assignment, a swapped interpreter, an assignment that leaves `int_` alone – the interpreter's
+    cache is dimensioned on the OLD individual – … change the table and break this) -/
 theorem shipped_storage_well_seated : WellSeated (shippedTbl true) = true := by decide
 
 theorem shipped_ref_storage_well_formed : WellRef (shippedTbl false) = true := by decide
@@ -577,11 +585,11 @@ theorem shipped_team_storage_memberwise : Gen.teamFields = ["team_"] ∧ Gen.tea
 
 /-- hence, for the code as it is: in every history every live model that stores its individual
     predicts with its own, live copy of the individual it stands for -/
-theorem shipped_models_own_their_individual {P : Type} (junk : P → P) (h : List (Op P)) (i : Nat) (o : Obj P)
-    (ho : (run shippedTbl junk h).objs i = some o) (hs : o.stored = true) :
+theorem shipped_models_own_their_individual {P : Type} [DecidableEq P] (junk : P → P) (h : List (Op P)) (i : Nat)
+    (o : Obj P) (ho : (run shippedTbl junk h).objs i = some o) (hs : o.stored = true) (hv : o.valid = true) :
     o.ptr = o.cell ∧ (run shippedTbl junk h).read i = some o.prog :=
   let r := stored_model_owns_its_individual shippedTbl shipped_storage_well_seated junk h i o ho hs
-  ⟨r.1, r.2.1⟩
+  ⟨r.1, r.2.2 hv⟩
 
 /-- every `lambdify` hands out a model that STORES its individual … -/
 theorem lambdify_routes_store : ∀ r ∈ Gen.routes, r.2.2 = true := by decide
@@ -626,8 +634,9 @@ example : RefSafe (P := Nat) shippedTbl id St.init [.newInd 7, .construct false 
     | (injection h with h; subst h; simp)
     | cases h
 
-/-- … and what the precondition protects from: overwrite the individual and the model follows it -/
-example : (run (P := Nat) shippedTbl id [.newInd 7, .construct false 1, .setInd 1 3]).read 0 = some 3 := by decide
+/-- … and what the precondition protects from: overwrite the individual and the model no longer reads
+    the individual it stands for (its interpreter faces a program it was not built for) -/
+example : (run (P := Nat) shippedTbl id [.newInd 7, .construct false 1, .setInd 1 3]).read 0 = none := by decide
 
 /-- the model DISTINGUISHES tables: with a memberwise (defaulted) copy the copy's interpreter still
     points into the original model – destroy the original and the copy dangles -/
@@ -638,10 +647,18 @@ example : (run (P := Nat) memberwiseTbl id [.newInd 7, .construct true 1, .copyC
   decide
 example : WellSeated (memberwiseTbl true) = false := by decide
 
+/-- an assignment that copies the individual but leaves the interpreter alone: the pointer is right,
+    the interpreter is not (built for the old individual 7, now facing 9): no value -/
+def keepTbl : Bool → Smf := fun _ => { Gen.storedSmf with copyAssign := ⟨.copy, .keep⟩ }
+example : (run (P := Nat) keepTbl id [.newInd 7, .newInd 9, .construct true 1, .construct true 2, .copyAssign 0 1]).read 0 = none := by
+  decide
+example : WellSeated (keepTbl true) = false := by decide
+
 /-- a move assignment that swaps the interpreters too (seeded change C08-m1): after `a = move(b)` the
-    model `a` reads the OLD individual of `a`, which now lives in `b` -/
+    interpreter of `a` points into `b`, at the OLD individual of `a`, with a cache built for `b`'s:
+    `a` does not read the individual 9 it now stands for -/
 def swapTbl : Bool → Smf := fun _ => { Gen.storedSmf with moveAssign := ⟨.swap, .swapPtr⟩ }
-example : (run (P := Nat) swapTbl id [.newInd 7, .newInd 9, .construct true 1, .construct true 2, .moveAssign 0 1]).read 0 = some 7 := by
+example : (run (P := Nat) swapTbl id [.newInd 7, .newInd 9, .construct true 1, .construct true 2, .moveAssign 0 1]).read 0 ≠ some 9 := by
   decide
 
 end lifetime_examples
